@@ -91,8 +91,17 @@ class C10(PropBase):
                 k = 1 + rng.below(max(1, len(data) - 1))
                 add("exh-split2", data, [str(k), str(1 + rng.below(3))])
         # 1b. numeric boundary files split at a random point (the digit limits must not depend on chunking)
-        for data in G.boundary_files():
-            add("boundary", data, [str(1 + rng.below(len(data) - 1))])
+        for data, tag in G.boundary_files_tagged():
+            add("boundary", data, [str(1 + rng.below(len(data) - 1))], tag=tag)
+        # 1b'. a CR inside every record kind, split around it; degenerate inputs (empty / no newline at all: "empty SymbolFile")
+        for data, k in G.cr_inside_files():
+            for j in range(max(1, k - 2), min(len(data) - 1, k + 3)):
+                add("cr-inside", data, [str(j)])
+        for data in [b"", b"x", b"MODULE a b c d", b"\r", b"MODULE Linux x86 ABC name"]:
+            add("degenerate", data)
+            add("degenerate", data, ["1*%d" % (len(data) + 2)])
+            for j in range(1, len(data)):
+                add("degenerate", data, [str(j)])
         # 1c. blank lines inside / between groups: split points around the blank lines (all of them for LF run 1)
         for data, marks in G.blank_group_files():
             add("blank-whole", data)
@@ -164,6 +173,9 @@ class C10(PropBase):
     def impl_cmd(self, exe, profile):
         return ["env", "VHARNESS_CASE_TIMEOUT=15", exe]
 
+    def model_cmd(self, exe):
+        return [exe, "async"]      # the driver also runs drive_async (parse_async) on the schedule taken as HTTP chunks
+
     def oracle(self, case, ans, profile):
         if ans.startswith("P;;"):
             return "parsing panicked: " + ans[3:200]
@@ -178,6 +190,29 @@ class C10(PropBase):
             return "parse succeeded but the callback received %d of %d input bytes" % (cb, a["total"])
         if a["tag"] == "ok" and f["R"] != "OK":
             return "every line of this input is a valid record (over-long ones are to be dropped), yet streamed parsing fails with " + f["R"]
+        if a["tag"] == "bad" and f["R"] == "OK":
+            return "a numeric field of this input is malformed or out of range for the Breakpad format, yet streamed parsing succeeds"
+        # the same clauses for SymbolFile::parse_async fed with the schedule as HTTP chunks
+        if "A" in f:
+            if f.get("acbok") != "1":
+                return "parse_async: the bytes passed to the callback, concatenated, are not a prefix of the input"
+            acb = int(f["acb"].split(",")[0])
+            if f["A"] == "OK" and acb != a["total"]:
+                return "parse_async succeeded but the callback received %d of %d input bytes" % (acb, a["total"])
+            if not (f["A"] == "OK" or f["A"].startswith("E")) or f["A"].startswith("E8") or f["A"].startswith("E9"):
+                return "parse_async returned neither a table nor a parse error: " + f["A"][:100]
+            if a["tag"] == "ok" and f["A"] != "OK":
+                return "every line of this input is a valid record, yet parse_async fails with " + f["A"]
+            if a["tag"] == "bad" and f["A"] == "OK":
+                return "a numeric field of this input is malformed or out of range for the Breakpad format, yet parse_async succeeds"
+            lens0 = a["line_lens"] + ([a["tail"]] if a["tail"] else [])
+            if all(n < G.HALF for n in lens0) and f.get("aeq") != "1":
+                return ("all lines are shorter than 80 KiB, yet parse_async over these chunks gives %s and whole-buffer parsing gives %s"
+                        % (f["A"], f["W"]))
+            fuzzy = [n for n in lens0 if G.HALF <= n < G.MAXCAP]
+            if not fuzzy and (f["A"].split(":")[0] != f["R"].split(":")[0] or f["AT"] != f["T"]):
+                return ("no line is in the alignment-dependent band (80..160 KiB), yet parse (sync reader) gives %s and parse_async gives %s "
+                        "on the same input (tables equal: %s)" % (f["R"], f["A"], f["AT"] == f["T"]))
         lens = a["line_lens"] + ([a["tail"]] if a["tail"] else [])
         if all(n < G.HALF for n in lens) and f.get("eq") != "1":
             return ("all lines are shorter than 80 KiB, yet streamed parsing gives %s and whole-buffer parsing gives %s "
